@@ -23,7 +23,8 @@ type c19File struct {
 	Decls []c19Decl
 }
 
-func c19GenFile(r *Rng, idx int) c19File {
+// c19GenFile: force > 0 fixes the number of statements (files with several hundred symbols).
+func c19GenFile(r *Rng, idx int, force int) c19File {
 	pre := fmt.Sprintf("m%d", idx)
 	var sb strings.Builder
 	type want struct {
@@ -36,6 +37,9 @@ func c19GenFile(r *Rng, idx int) c19File {
 	nStat := r.Range(6, 16)
 	if r.Chance(1, 4) {
 		nStat = r.Range(30, 90) // a long file: declarations far down (line numbers beyond typical column numbers)
+	}
+	if force > 0 {
+		nStat = force
 	}
 	var tables []string // global tables that can get members
 	var ltables []string
@@ -191,7 +195,13 @@ func runC19(c *Ctx) {
 		var files []c19File
 		fm := map[string]string{}
 		for k := 0; k < nf; k++ {
-			f := c19GenFile(r, k)
+			force := 0
+			if k == 0 && wi%25 == 7 {
+				// one file with several hundred symbols: more than the per-file share of a workspace/symbol answer
+				force = r.Range(220, 330)
+				c.Count("files_with_hundreds_of_symbols", 1)
+			}
+			f := c19GenFile(r, k, force)
 			if pr := RParse([]byte(f.Text)); !pr.Valid() {
 				panic("harness: C19 generator produced invalid program: " + pr.Err + "\n" + f.Text)
 			}
@@ -330,7 +340,7 @@ func runC19(c *Ctx) {
 	kinds := []string{}
 	seen := map[string]bool{}
 	for i := 0; i < 40; i++ {
-		for _, d := range c19GenFile(NewRng(uint64(i)), 0).Decls {
+		for _, d := range c19GenFile(NewRng(uint64(i)), 0, 0).Decls {
 			if !seen[d.Kind] {
 				seen[d.Kind] = true
 				kinds = append(kinds, d.Kind)
